@@ -2,6 +2,8 @@ import TempestVerif.Drv.Util
 import TempestVerif.Model.Run
 import TempestVerif.Model.Posterior
 import TempestVerif.Gen.Tables
+import TempestVerif.Model.RunEntry
+import TempestVerif.Model.PosteriorX
 /- line-protocol handlers of property C12.
    post.run n=<N> trim=<0|1> res=<0|1> blobs=<0|1> rb=<0|1> rl=<0|1> tidx=<idx> ridx=<idx>
        particles are tags 0..N-1 in every array; the trimming / resampling index vectors are inputs
@@ -11,6 +13,15 @@ import TempestVerif.Gen.Tables
        → <1|0> <ess as float | ->          (`-` : empty history)
    post.w0 logw=<floats>   → the untrimmed posterior weights `exp(logw-max)/sum` as floats  |  none
    post.unif n=<nat>       → the entry `1/n` of `np.ones(n)/n` as float
+   c12x.entry hist=<k> iter=<i> calls=<c> beta=<f> logz=<f> started=<0|1> nt=<n|-> call=<n> rs=<0|1>
+              ck=<0|1> [ckhist=<k> ckiter=<i> ckcalls=<c> ckbeta=<f> cklogz=<f> cknt=<n|-> ckrng=<0|1>]
+       `Model.RunEntry.prologue` on a core whose history holds k batches; `rs`: random_state is set (the fresh arm reseeds);
+       `ck=1`: run(resume_state_path=file) with the file's content; stream positions are tags (core 10, file 55, reseeded 99)
+       → branch=<resume|continue|fresh> t0=<n> nt=<n> hist=<k> iter=<i> calls=<c> beta=<f> logz=<f> g=<tag> started=<0|1>
+         ev0=<f|none> ev=<f|none>      (ev0 / ev: `evidence()[0]` before / after the prologue)
+   c12x.post n=<N> decl=<0|1> cur=<0|1> bh=<sizes of the committed blob arrays> empty=<0|1> trim= res= rb= rl= tidx= ridx=
+       `Model.PosteriorX.computePosteriorWith` on tags 0..N-1 with the given index vectors (`empty=1`: no log-weights)
+       → names=<returned names> x=<tags> l=<tags> b=<tags|-> lw=<tags|-> nw=<n>  |  raise
 -/
 namespace Drv.C12
 open Drv Model.Posterior Model.Run
@@ -36,9 +47,83 @@ def postRun (args : List (String × String)) : Option String := do
     let names := returnNames blobs o
     some s!"names={",".intercalate names} x={showList toString r.x} l={showList toString r.l} b={showList toString r.b} lw={showList toString r.lw} nw={r.w.length}"
 
+open Model.RunEntry Model.ClosedLoop in
+def entryCmd (args : List (String × String)) : Option String := do
+  let nat (k : String) : Option Nat := (getArg args k).bind String.toNat?
+  let flt (k : String) : Option Float := (getArg args k).bind parseFloat?
+  let flag (k : String) : Option Bool := (getArg args k).map (· == "1")
+  let optNat (k : String) : Option (Option Nat) := (getArg args k).map fun s => if s == "-" then none else s.toNat?
+  let dummy : CBatch Float Nat := ⟨0, 0, 0, [0], [0], 0, 0, 0, 0, 0⟩
+  let k ← nat "hist"
+  let it ← nat "iter"
+  let calls ← nat "calls"
+  let beta ← flt "beta"
+  let logz ← flt "logz"
+  let started ← flag "started"
+  let nt ← optNat "nt"
+  let callN ← nat "call"
+  let rs ← flag "rs"
+  let ck ← flag "ck"
+  let st : CState Float Nat Unit Nat := ⟨List.replicate k dummy, beta, logz, 0, it, calls, [], [], [], 0, 0, 0, (), 10⟩
+  let core : Core Float Nat Unit Nat := ⟨st, started, nt, 0⟩
+  let file : Option (CkFile Float Nat Nat) ←
+    if ck then do
+      let ckk ← nat "ckhist"
+      let cki ← nat "ckiter"
+      let ckc ← nat "ckcalls"
+      let ckb ← flt "ckbeta"
+      let ckz ← flt "cklogz"
+      let cknt ← optNat "cknt"
+      let ckrng ← flag "ckrng"
+      pure (some ⟨⟨List.replicate ckk dummy, ckb, ckz, 0, cki, ckc, [], [], [], 0, 0, 0⟩, cknt, if ckrng then some 55 else none⟩)
+    else pure none
+  let reseed : Nat → Nat := if rs then fun _ => 99 else id
+  let c1 := prologue reseed core ⟨callN, file⟩
+  let sev (e : Option Float) : String := match e with | some v => showFloat v | none => "none"
+  let snt : String := match c1.nTotal with | some n => toString n | none => "-"
+  pure s!"branch={(entryBranch file.isSome k).name} t0={c1.t0} nt={snt} hist={c1.st.hist.length} iter={c1.st.iter} calls={c1.st.calls} beta={showFloat c1.st.beta} logz={showFloat c1.st.logz} g={c1.st.g} started={showBool c1.started} ev0={sev (evidence core)} ev={sev (evidence c1)}"
+
+open Model.PosteriorX in
+def postX (args : List (String × String)) : Option String := do
+  let n ← (getArg args "n").bind String.toNat?
+  let flag (k : String) : Option Bool := (getArg args k).map (· == "1")
+  let decl ← flag "decl"
+  let cur ← flag "cur"
+  let bh ← (getArg args "bh").bind parseNatList?
+  let empty ← flag "empty"
+  let trim ← flag "trim"
+  let res ← flag "res"
+  let rb ← flag "rb"
+  let rl ← flag "rl"
+  let tidx ← (getArg args "tidx").bind parseNatList?
+  let ridx ← (getArg args "ridx").bind parseNatList?
+  let tags := List.range n
+  -- the committed blob arrays: consecutive tag ranges of the given sizes
+  let blobsHist : List (List Nat) := (bh.foldl (fun (acc : Nat × List (List Nat)) sz =>
+    (acc.1 + sz, acc.2 ++ [(List.range sz).map (· + acc.1)])) (0, [])).2
+  let h : Hist Nat Nat Nat Nat := ⟨tags, tags, blobsHist, tags, decl, cur⟩
+  let o : Opts := ⟨res, trim, rb, rl⟩
+  let r := computePosteriorWith Gen.Tables.posteriorTrimGather Gen.Tables.posteriorResampleGather
+    (fun _ => some (tidx, List.replicate tidx.length 0)) (fun _ => some ridx) (fun k => List.replicate k 0) o h
+    (if empty then none else some (List.replicate n 0))
+  match r with
+  | none => pure "raise"
+  | some cs =>
+    let col (nm : String) : String :=
+      match cs.find? (fun c => c.name == nm) with
+      | some (.x v) => showList toString v
+      | some (.logl v) => showList toString v
+      | some (.blobs v) => showList toString v
+      | some (.logw v) => showList toString v
+      | _ => "-"
+    let nw : Nat := match cs.find? (fun c => c.name == "weights") with | some c => c.len | none => 0
+    pure s!"names={",".intercalate (cs.map Col.name)} x={col "x"} l={col "logl"} b={col "blobs"} lw={col "logw"} nw={nw}"
+
 def handle (cmd : String) (args : List (String × String)) : Option String :=
   match cmd with
   | "post.run" => some ((postRun args).getD "bad-op")
+  | "c12x.entry" => some ((entryCmd args).getD "bad-op")
+  | "c12x.post" => some ((postX args).getD "bad-op")
   | "term.F" =>
     match (getArg args "tol").bind parseFloat?, (getArg args "beta").bind parseFloat?,
           (getArg args "ess").bind parseFloat?, (getArg args "ntotal").bind parseFloat? with
